@@ -77,12 +77,23 @@ ObsExtent(e) ==
      [] e.k = "getitem_name" -> RegionOf(rm) = e.box
      [] OTHER -> TRUE
 
+(* a request inside the region that the library refused: name the circumstance (the       *)
+(* harness uses it as the condition class of the violation key)                          *)
+SegFaces(m, d, S) == UNION {{s.lo, s.lo + m.c[d] * (s.t - s.f)} : s \in S}
+RaiseName(x, e) ==
+   IF e.k = "sel_range" /\ subs # <<>>
+   THEN IF \E k \in DOMAIN subs : {subs[k].box.lo[e.d], subs[k].box.hi[e.d]} \cap SegFaces(mesh, e.d, x.alt[e.d]) # {}
+        THEN "C07_RangeKeepsFromTo:raises-bound-on-subregion-face"
+        ELSE "C07_RangeKeepsFromTo:raises-with-subregions"
+   ELSE IF e.k = "getitem_box" /\ \E d \in Dims(mesh) : e.box.hi[d] = Hi(mesh, d)
+        THEN "C07_SmallestCoveringBlock:raises-upper-corner-on-region-boundary"
+        ELSE "inside-request-raises"
 StepBlock ==
    /\ Ev.k \in BlockKinds
    /\ act' = <<Ev.k>>
    /\ obs' = Ev.rm
    /\ LET e == Ev  x == Exp(Ev) IN
-        /\ Verd(x.ok = e.ok, "C07_OutsideRejected")
+        /\ Verd(x.ok = e.ok, IF x.ok THEN RaiseName(x, e) ELSE "C07_OutsideRejected")
         /\ Verd((x.ok /\ e.ok) => e.exact, "result-mesh-on-lattice")
         /\ Verd((x.ok /\ e.ok /\ e.exact) => \E r \in Choices(x) : MeshMatch(r, e), "C07_CellAligned")
         /\ Verd((x.ok /\ e.ok /\ e.exact) => \E r \in Choices(x) : MeshMatch(r, e) /\ MapMatch(r, e), "C07_PointwiseAgreement-values")
